@@ -301,7 +301,13 @@ class Harness:
                     H.cur_hook_entry[2].append(hid)
                     if beh:
                         raise H.make_exc(beh, sc)
-                if hid % 2:
+                if hid % 4 == 3:
+                    # the way the hooks.* config namespace (and user code) adds a hook: a Hook made from the bare
+                    # callback, appended to the point's list without going through attach()
+                    cb.failsafe = failsafe
+                    cb.priority = prio
+                    hooks[point].append(_cprequest.Hook(cb))
+                elif hid % 2:
                     # metadata declared on the callback itself
                     cb.failsafe = failsafe
                     cb.priority = prio
